@@ -11,5 +11,7 @@ C.build_cli()
 C.build_probe()
 C.build_rt()
 C.build_corpus()
+C.build_corpus_small()
+C.build_probe_miri()
 print("setup ok")
 PY
